@@ -333,7 +333,7 @@ pub fn main_c11(env: &Env, tier: &str, seed: u64, replay: Option<&str>) -> i32 {
             let mut case = cases[i].clone();
             let oracle = v.oracle.clone();
             let mut budget = 40usize;
-            let kept = simcore::text::ddmin(case.lines.clone(), &mut budget, &mut |ls: &[GLine]| {
+            let kept = gen::minimise_lines(case.lines.clone(), &mut budget, &mut |ls: &[GLine]| {
                 let mut c = case.clone();
                 c.lines = ls.to_vec();
                 check_case(env, &ctx0, &c).0.iter().any(|x| x.oracle == oracle)
